@@ -374,6 +374,9 @@ fn main() {
     // second family: pure-ASCII texts in which a character is nevertheless two bytes / two code
     // points -- CR LF is one grapheme cluster (units follow the first family's)
     all.extend(strings(&CRLF_ALPHA, max_len + 1).into_iter().filter(|s| s.contains('\r') || s.contains('\n')));
+    // clusters that exist only under the *extended* grapheme rules (a base letter with a spacing
+    // vowel sign, Devanagari and Thai): legacy segmentation would count two characters
+    all.extend(strings(&["a", "\u{915}\u{93f}", "\u{e01}\u{e33}"], 3).into_iter().filter(|s| !s.is_ascii()));
     // third family: long texts (lengths around the powers of two a size threshold would sit at) of
     // repeated symbols of mixed widths
     for n in tu_verif::enumerate::threshold_lengths(run.pick(6, 8)) {
